@@ -22,6 +22,7 @@ def install(eng):
 
     PARAMS = {"target": vc.Target, "dependencies": LT, "backend": B, "spec_hashes": H}
     NOCHANGE = ["forall(lambda u: BNow(u) == old(BNow(u)) and DepOK(u) == old(DepOK(u)), Target)",
+                "sched_accepted == old(sched_accepted)", "the_backend._tracked_jobs == old(the_backend._tracked_jobs)",
                 "forall(lambda u, h: Changed(h, u) == old(Changed(h, u)), Target, Hashes)"]
     LOGPOST = ["forall(lambda u: (u in log_pos) == (u in old(log_pos) or u == target), Target)",
                "log_pos[target] == old(log_n)", "log_n == old(log_n) + 1",
